@@ -7,7 +7,7 @@ variables of the packages this property's code lives in, the functions (other th
 assign to them or call methods on them, and the fields of the property's struct types. The model is
 a pure function of the arguments and of these fields; a new variable, writer or field is state the
 model does not know of. -/
-def stateC13 : List (String × String) := [("globals:stats", "ErrMismatchedSamples ErrSampleSize ErrSamplesEqual ErrZeroVariance MannWhitneyExactLimit MannWhitneyTiesExactLimit StdNormal _KDEBoundaryMethod_index _KDEKernel_index _LocationHypothesis_index inf nan quantileCIApproxThreshold"), ("globalwrites:stats", "MannWhitneyUTest:StdNormal.CDF"), ("fields:stats.StreamStats", "Count:uint Total:float64 Min:float64 Max:float64 mean:float64 meanOfSquares:float64 vM2:float64")]
+def stateC13 : List (String × String) := [("globals:stats", "ErrMismatchedSamples ErrSampleSize ErrSamplesEqual ErrZeroVariance MannWhitneyExactLimit MannWhitneyTiesExactLimit StdNormal _KDEBoundaryMethod_index _KDEKernel_index _LocationHypothesis_index inf nan quantileCIApproxThreshold"), ("globalwrites:stats", "MannWhitneyUTest:StdNormal.CDF"), ("fields:stats.StreamStats", "Count:uint Total:float64 Min:float64 Max:float64 mean:float64 meanOfSquares:float64 vM2:float64"), ("funcs:stats", "n=117 fnv64a=80a50d6f629bd21b")]
 
 /-- the source has exactly the package-level variables, writers and struct fields the model accounts for -/
 theorem state_C13 : holdsAll stateC13 = true := by decide +kernel
